@@ -288,7 +288,7 @@ def subdomainSub (amp : Bool) (hostname : Str) : Str := subdomainSubFrom amp hos
 
 def ampDash : Str := "amp-".toList
 
-/-- lines 411–420 (`normalize_hostname`: 161–169): a leading `amp-` is cut, what follows is
+/-- lines 411–420 (`normalize_hostname`: 161–168): a leading `amp-` is cut, what follows is
 decoded again and — `again` = `strip_irrelevant_subdomains` — loses its irrelevant labels
 (`IRRELEVANT_SUBDOMAIN_AMP_RE`: this block runs under `normalize_amp` only) -/
 def stripAmpPrefix (puny : Str → Str) (again : Bool) (h : Str) : Str :=
@@ -297,7 +297,7 @@ def stripAmpPrefix (puny : Str → Str) (again : Bool) (h : Str) : Str :=
     if again then subdomainSub true h else h
   else h
 
-/-- the hostname through lines 296–297, 394–400, 411–420 -/
+/-- the hostname through lines 300–301, 394–400, 411–420 -/
 def normHost (puny : Str → Str) (o : Opts) (h : Str) : Str :=
   if h.isEmpty then h
   else
